@@ -121,8 +121,12 @@ type faultIdent interface {
 }
 
 // newFaultErr: the error of the writer that fails at call k; the dynamic type rotates with k
-func newFaultErr(k int) faultIdent {
-	switch k % 3 {
+func newFaultErr(k int) error {
+	switch k % 4 {
+	case 3:
+		// the standard library's own sentinel, returned by bufio.Writer and io.MultiWriter as a genuine failure after a
+		// partial accept: not to be mistaken for bytes.Buffer's report of a short write and retried
+		return io.ErrShortWrite
 	case 1:
 		return faultErrList{&faultErr{k}}
 	case 2:
@@ -158,7 +162,7 @@ func (p faultPlan) String() string {
 
 type faultyWriter struct {
 	plan     faultPlan
-	err      faultIdent
+	err      error
 	ncalls   int
 	failed   bool   // call k was reached
 	accepted []byte // bytes accepted up to and including the failing call
@@ -202,12 +206,14 @@ func (w *faultyWriter) Write(p []byte) (int, error) {
 }
 
 // causeIsWriterError: Cause() is, or wraps, the error the writer returned.
-func causeIsWriterError(se liquid.SourceError, fe faultIdent) bool {
+func causeIsWriterError(se liquid.SourceError, fe error) bool {
 	var c error = se.Cause()
 	for depth := 0; c != nil && depth < 20; depth++ {
 		// never `c == fe`: comparing two values of an uncomparable dynamic type panics
-		if fi, ok := c.(faultIdent); ok && fi.faultK() == fe.faultK() && reflect.TypeOf(c) == reflect.TypeOf(fe) {
-			return true
+		if fi, ok := c.(faultIdent); ok {
+			if fj, ok := fe.(faultIdent); ok && fi.faultK() == fj.faultK() && reflect.TypeOf(c) == reflect.TypeOf(fe) {
+				return true
+			}
 		}
 		if errors.Is(c, fe) { // errors.Is checks comparability itself
 			return true
@@ -480,6 +486,14 @@ func (r *Run) Notef(key, format string, a ...any) {
 
 // ---- the fixed family -----------------------------------------------------------------------
 
+func faultBigArray() *V {
+	var xs []*V
+	for j := 0; j < 400; j++ {
+		xs = append(xs, VStr(fmt.Sprintf("%03d", j)+strings.Repeat("x", 97)))
+	}
+	return VSlice(TStr, xs...)
+}
+
 func faultFamilyEnv() map[string]*V {
 	i := func(x int64) *V { return VInt(0, x) }
 	return map[string]*V{
@@ -495,6 +509,7 @@ func faultFamilyEnv() map[string]*V {
 		"m":     VStrMap(SKV("a", i(1)), SKV("b", VStr("x"))),
 		"inc":   VStr("inc.html"),
 		"none":  VAnys(),
+		"big":   faultBigArray(), // prints 40 KB: an implementation that gathers an array's text in chunks must stop at the first failed chunk
 	}
 }
 
@@ -522,6 +537,8 @@ var faultFamily = []string{
 	// a neighbour's hyphen next to a value or a raw body with white space at its edges (written through WriteVerbatim: flushed at once)
 	"{{ s -}}{{ sp }}{{- s }}", "{{ s -}}{{ words }}{{- s }}", "{{ s -}}{% raw %}  y  {% endraw %}{{- s }}", "a {{ s -}}{{ empty }}{{ sp }} b", "a {{ s -}}{{ nilv }}{{ sp }}{{ nilv }}{{- s }} b",
 	"{% for i in nums -%}{{ sp }}{%- endfor %}", "{% capture c -%}{{ sp }}{%- endcapture %}{{ s -}}{{ c }}{{- s }}", "x {% if flag -%}{% raw %} r {% endraw %}{%- endif %} y",
+	// an array whose printed form is larger than any plausible scratch buffer
+	"a {{ big }} b", "{% for i in (1..2) %}{{ big | join: '' }}{% endfor %}",
 	// if / unless / case
 	"{% if flag %}yes{% else %}no{% endif %}", "{% if nilv %}yes{% elsif n == 2 %}two{% else %}no{% endif %}!", "{% unless flag %}a{% else %}b{% endunless %}", "{% unless nilv %} a {% endunless %}",
 	"{% case n %}{% when 1 %}one{% when 2, 3 %}two{% else %}other{% endcase %}", "{% case s %}ignored{% when 'x' %}x{% else %}{{ s }}{% endcase %}", "{% if flag %}{% endif %}", "{% if flag %}{% if n %}{{ n }}{% endif %}x{% endif %}",
